@@ -180,10 +180,16 @@ pub fn worker_case(case: &str) -> String {
     format!("{} {}", reply(&ids), if pages == numbered { "num" } else { "NUM" })
 }
 
+/// number of cases that did not return (timeout / abort); after a few the campaign stops early —
+/// the verdict is already a violation and every further hang costs a full timeout
+static NO_RESULT: std::sync::atomic::AtomicUsize = std::sync::atomic::AtomicUsize::new(0);
+fn give_up() -> bool { NO_RESULT.load(std::sync::atomic::Ordering::Relaxed) >= 4 }
+
 /// run one request in the isolated worker; Err = panic / timeout / abort description
 fn run_real(doc: &Document) -> Result<(Vec<ObjectId>, bool), (String, String)> {
     let req = request(doc);
-    let out = crate::iso::run_isolated("C12", &[req], 5000, 2048).pop().unwrap_or_default();
+    let out = crate::iso::run_isolated("C12", &[req], 3000, 2048).pop().unwrap_or_default();
+    if out.starts_with("timeout") || out.starts_with("abort") { NO_RESULT.fetch_add(1, std::sync::atomic::Ordering::Relaxed); }
     if let Some(rest) = out.strip_prefix("ok ") {
         let t: Vec<&str> = rest.split(' ').collect();
         let n: usize = t[0].parse().unwrap_or(0);
@@ -243,6 +249,7 @@ Non-trivial = at least 2 leaves or a malformed mutation applied; distinct by req
 }
 
 fn check_valid(c: &mut Ctx, r: &mut Rng, t: &T, stream: &str) {
+    if give_up() { return; }
     let (doc, leaves, kids_by_ref) = build_doc(r, t);
     let req = request(&doc);
     if leaves.len() >= 2 { c.nontrivial(&req); }
@@ -267,6 +274,7 @@ fn check_valid(c: &mut Ctx, r: &mut Rng, t: &T, stream: &str) {
 }
 
 fn check_any(c: &mut Ctx, doc: &Document, stream: &str) {
+    if give_up() { return; }
     let req = request(doc);
     c.nontrivial(&req);
     c.count(&format!("{}.cases", stream));
